@@ -37,7 +37,11 @@ RULE = ("a case = (history of 3-6 batches / multi-dataset transactions / clean r
         "history runs in a child process that dies at the point; the parent reopens, dumps sequence keys, id table, change log with raw "
         "positions, latest feed, listing, counters, reference keys, relationship queries, runs the tail, dumps again, and runs the "
         "crash-free reference histories (without / with the interrupted write) on a fresh store; non-trivial = the child really died "
-        "inside a write; distinct = distinct (history, crash) JSON")
+        "inside a write; distinct = distinct (history, crash) JSON.  Plus (a) targeted histories whose transaction / batch touches only "
+        "EXISTING entities but adds never-seen predicates and reference targets (ids are assigned for those too), crashed at every point "
+        "x hit 1..3 and closed cleanly, tail = retry + writes of the new targets; (b) dataset-management cases: acknowledged writes, then "
+        "create / delete / rename dies at each create.* / delete.* / rename.* hook point (or completes), the parent reopens, reads every "
+        "registered dataset, creates and writes a fresh dataset, runs GarbageCollector.Cleandeleted and reads again")
 TRUSTED = [
     "badger: a committed transaction is atomic and durable, Sequence leases are persisted before first use (a crash here is process death "
     "at a hook point or by SIGKILL, not power loss; the OS page cache survives)",
@@ -49,6 +53,10 @@ TRUSTED = [
     "internal ids are compared as sets (URIs known, ids in use): the assignment order inside one write follows Go map iteration; the order "
     "in which a transaction's datasets are processed (a Go map range) is observed through the driver's statsd client and given to the model",
     "F04b (first NewStore after a SIGKILL during Close fails once) is detected and reported by the Python harness, not modelled in Coq",
+    "harness-level oracles (lib/props/c04.py, not Coq): every internal id in a reference key has a URI; every entity of a latest view is "
+    "found through its URI, once, under the id its URI maps to; dataset-management crash cases (registry sane: pairwise distinct ids, no "
+    "registered id in the deleted set; every dataset that still exists holds exactly its acknowledged writes after reopen, after a fresh "
+    "dataset was created and written, and after garbage collection) are compared with a crash-free reference run of the implementation",
 ]
 ASSUMPTIONS = ["one client; no dataset create/delete/rename, compaction or job token inside a history (C07, C12, C08 cover their own crash points)",
                "core.Dataset itself is not written by the histories"]
@@ -88,6 +96,18 @@ def witness_cases():
     res.append(mk_case(["a", "b"], [b1, tx], {"point": "txn.afterUpdateDataset", "hit": 1}, tail, pool))
     # no crash at all: clean close
     res.append(mk_case(["a", "b"], [b1, {"op": "restart"}, tx], None, tail[1:], pool))
+    # a transaction that only updates existing entities but introduces a new predicate and a new target, then a clean close
+    up = {"op": "txn", "sets": [{"ds": "a", "ents": [{"id": "e1", "props": {"p1": "a"}, "refs": {"r1": "e2", "r9": "e7"}}]},
+                                {"ds": "b", "ents": [{"id": "e1", "props": {"p1": "b"}, "refs": {"r8": ["e4"]}}]}]}
+    res.append(mk_case(["a", "b"], [b1, tx, up], None, [{"op": "batch", "ds": "a", "ents": [sc.with_id("e7", B)]}], pool + ["e7"]))
+    res.append(mk_case(["a", "b"], [b1, tx, up], {"point": "txn.afterCommit", "hit": 2}, [{"op": "retry"}, {"op": "batch", "ds": "a", "ents": [sc.with_id("e7", B)]}], pool + ["e7"]))
+    # dataset management dying between its persistence steps
+    for m, p in (({"op": "create", "ds": "n"}, "create.afterRecord"), ({"op": "create", "ds": "n"}, "create.afterNextId"),
+                 ({"op": "delete", "ds": "a"}, "delete.afterDeletedSet"), ({"op": "delete", "ds": "a"}, "delete.afterRecord"),
+                 ({"op": "rename", "ds": "a", "to": "r"}, "rename.afterMove")):
+        c = mk_case(["a", "b"], [b1, b2], {"point": p, "hit": 1}, [], pool)
+        c["mgmt"] = m
+        res.append(c)
     return res
 
 
@@ -107,8 +127,69 @@ def gen_history(rng, nw):
     return sc.DS_NAMES[:nds], writes, tail, pool
 
 
+def plain(i, v):
+    return {"id": i, "props": {"p1": v}, "refs": {}}
+
+
+def gen_newpred_history(rng, k):
+    """every entity of the transaction (and of the later batch) ALREADY exists in its dataset; the writes only add never-seen
+    predicates and never-seen reference targets - ids are assigned for those too (assertIDForURI for refs ignores isnew)"""
+    r1, r2, r3 = "r%d" % (10 + 3 * k), "r%d" % (11 + 3 * k), "r%d" % (12 + 3 * k)
+    t1, t2 = "e%d" % (20 + 2 * k), "e%d" % (21 + 2 * k)
+    setup = [{"op": "batch", "ds": "a", "ents": [plain("e1", "a"), plain("e2", "b")]},
+             {"op": "batch", "ds": "b", "ents": [plain("e1", "c")]}]
+    if rng.chance(1, 2):
+        setup.append({"op": "restart"})
+    tx = {"op": "txn", "sets": [{"ds": "a", "ents": [{"id": "e1", "props": {"p1": "a"}, "refs": {r1: t1}}]},
+                                {"ds": "b", "ents": [{"id": "e1", "props": {"p1": "c"}, "refs": {r2: ["e2", t2]}}]}]}
+    upd = {"op": "batch", "ds": "a", "ents": [{"id": "e2", "props": {"p1": "b"}, "refs": {r3: [t1]}}]}
+    ops = setup + ([tx, upd] if rng.chance(1, 2) else [upd, tx])
+    tail = [{"op": "retry"}, {"op": "batch", "ds": "a", "ents": [plain(t1, "t")]}, {"op": "batch", "ds": "b", "ents": [plain(t2, "u")]}]
+    return ["a", "b"], ops, tail, ["e1", "e2", t1, t2]
+
+
+MGMT = {"create": ["create.afterNextId", "create.afterRecord", "create.afterMeta"],
+        "delete": ["delete.afterRecord", "delete.afterDeletedSet", "delete.afterMeta"],
+        "rename": ["rename.afterMove", "rename.afterOldMeta", "rename.afterNewMeta"]}
+
+
+def gen_mgmt(rng, nh):
+    """dataset-management crash points: acknowledged writes, then create / delete / rename dies at every hook point"""
+    cases = []
+    for _ in range(nh):
+        pool = sc.IDS[:rng.choice([3, 4])]
+        writes = sc.gen_writes(rng, 2, rng.range(2, 4), pool, rich=True)
+        for op, pts in sorted(MGMT.items()):
+            m = {"op": op, "ds": "n" if op == "create" else rng.choice(["a", "b"])}
+            if op == "rename":
+                m["to"] = "r"
+            for p in pts + [None]:
+                c = mk_case(["a", "b"], writes, {"point": p, "hit": 1} if p else None, [], pool)
+                c["mgmt"] = m
+                cases.append(c)
+    return cases
+
+
 def gen(rng, tier):
-    nh = {"quick": 20, "thorough": 60, "search": 30}[tier]
+    return gen_writes_cases(rng, tier) + gen_newpred_cases(rng, tier) + gen_mgmt(rng, {"quick": 1, "thorough": 6, "search": 2}[tier])
+
+
+def gen_newpred_cases(rng, tier):
+    cases = []
+    for k in range({"quick": 2, "thorough": 8, "search": 3}[tier]):
+        dss, ops, tail, pool = gen_newpred_history(rng, k)
+        for p in [None] + POINTS:
+            for h in ([1] if p is None else [1, 2, 3]):
+                cases.append(mk_case(dss, ops, {"point": p, "hit": h} if p else None, tail, pool))
+        if tier != "quick":
+            for _ in range(6):
+                cases.append(mk_case(dss, [w for w in ops if w["op"] != "restart"],
+                                     {"kill_line": rng.range(2, 40), "kill_us": rng.choice([0, 50, 200, 800])}, tail, pool))
+    return cases
+
+
+def gen_writes_cases(rng, tier):
+    nh = {"quick": 16, "thorough": 60, "search": 30}[tier]
     hits = {"quick": [1, 2, 3], "thorough": [1, 2, 3, 4, 5, 6, 8], "search": [1, 2, 3, 4]}[tier]
     cases = []
     for _ in range(nh):
@@ -303,7 +384,14 @@ def tail_ops(c, o):
     return res
 
 
+NEUTRAL = ("{| t_next0 := 0; t_idp0 := 0; t_prefix := []; t_crash := CNone; t_after := {| o_idp := 1000; o_next := 0; o_ids := []; o_ds := [] |}; "
+           "t_tail := []; t_final := {| o_idp := 1000; o_next := 0; o_ids := []; o_ds := [] |}; t_refA := []; t_refB := None |}")
+
+
 def term(c, o):
+    if c.get("mgmt"):
+        # dataset-management cases are judged by the harness-level oracle (mgmt_problems); the Coq model has no dataset registry
+        return NEUTRAL if (o.get("outcome") == "ok" and o.get("mgmt")) else BAD
     if not usable(o):
         return BAD
     kind, idx, phase, cdone, order = crash_position(c, o)
@@ -395,7 +483,118 @@ def refs_verdict(c, o):
     return v or None
 
 
+def dump_problems(dump, what):
+    """clauses on one dump that the Coq model does not hold: every internal id in a reference key has a URI; every entity of a
+    latest view is found through its URI, once, under the id its URI maps to"""
+    ns = dump.get("ns") or {}
+    out = []
+    for r in dump.get("refs") or []:
+        if r["src"].startswith("?") or r["pred"].startswith("?") or r["tgt"].startswith("?"):
+            out.append("%s: reference key of dataset %s holds an internal id without URI: %s -%s-> %s" % (what, r["ds"], r["src"], r["pred"], r["tgt"]))
+            break
+    ids = dump.get("ids") or {}
+    for d in dump["ds"]:
+        seen = {}
+        for e in d["listing"]:
+            u = sc.expand(e["id"], ns)
+            if u in seen and seen[u] != e.get("iid"):
+                out.append("%s: %s is twice in the latest view of %s (internal ids %s and %s)" % (what, u, d["name"], seen[u], e.get("iid")))
+            seen[u] = e.get("iid")
+            if e["id"] in ids and ids[e["id"]] != e.get("iid", 0):
+                out.append("%s: %s is stored in %s under internal id %s but its URI maps to %s" % (what, u, d["name"], e.get("iid"), ids[e["id"]]))
+            if e["id"] not in ids:
+                out.append("%s: %s of %s has no URI -> id mapping" % (what, u, d["name"]))
+        found = {sc.expand(e["id"], ns) for e in d["gets"]}
+        for u in seen:
+            if u.startswith(sc.NS + "e") and u not in found:
+                out.append("%s: %s is in the latest view of %s but a lookup by its URI finds nothing" % (what, u, d["name"]))
+    return out
+
+
+def canon_ent(e, ns):
+    return json.dumps(sc.canon_value({"id": e["id"], "props": e.get("props"), "refs": e.get("refs"), "deleted": e.get("deleted")}, ns), sort_keys=True)
+
+
+def canon_ds(dump, name):
+    """everything a dataset holds, by URI, times as ranks inside the dataset"""
+    if dump is None:
+        return None
+    ns = dump.get("ns") or {}
+    for d in dump["ds"]:
+        if d["name"] != name:
+            continue
+        refs = [r for r in (dump.get("refs") or []) if r["ds"] == name]
+        times = sorted({e["rec"] for e in d["changes"]} | {r["time"] for r in refs})
+        rank = {t: i for i, t in enumerate(times)}
+        groups = {}
+        for r in refs:
+            k = (r["out"], sc.expand(r["src"], ns), sc.expand(r["pred"], ns), sc.expand(r["tgt"], ns))
+            groups.setdefault(k, []).append((rank[r["time"]], r["del"]))
+        hist = []
+        for k, l in sorted(groups.items()):
+            state, h = True, []
+            for t, dele in sorted(l):
+                if dele != state:
+                    h.append((t, dele))
+                    state = dele
+            if h:
+                hist.append((k, h))
+        return {"changes": [canon_ent(e, ns) for e in d["changes"]], "latest": [canon_ent(e, ns) for e in d["latest"]],
+                "listing": sorted(canon_ent(e, ns) for e in d["listing"]), "gets": sorted(canon_ent(e, ns) for e in d["gets"]),
+                "refs": hist}
+    return None
+
+
+EMPTY_DS = {"changes": [], "latest": [], "listing": [], "gets": [], "refs": []}
+
+
+def mgmt_problems(c, o):
+    """dataset-management crash case: the registry is sane and every acknowledged batch of a dataset that still exists is fully
+    present - after reopen, after a fresh dataset was created and written, and after the garbage collector ran"""
+    m = o.get("mgmt")
+    if o.get("outcome") != "ok" or not m:
+        return ["driver outcome %s: %s" % (o.get("outcome"), (o.get("detail") or "")[:300])]
+    out = []
+    if m.get("err") or m.get("new_err") or m.get("gc_err"):
+        out.append("errors: %s %s %s" % (m.get("err"), m.get("new_err"), m.get("gc_err")))
+    mg = c["mgmt"]
+    for what, reg, dump in (("after reopen", m["reg"], m["after"]), ("after creating dataset zz", m["reg2"], m["after2"]),
+                            ("after garbage collection", m["reg2"], m["after3"])):
+        ids = [d["id"] for d in reg["datasets"]]
+        if len(ids) != len(set(ids)):
+            out.append("%s: registered datasets share an internal id: %s" % (what, reg["datasets"]))
+        hit = [d for d in reg["datasets"] if d["id"] in reg["deleted"]]
+        if hit:
+            out.append("%s: registered dataset(s) %s are in the persisted deleted-datasets set %s" % (what, hit, reg["deleted"]))
+        if dump.get("err"):
+            out.append("%s: read errors: %s" % (what, dump["err"][:300]))
+        out += dump_problems(dump, what)
+        for d in dump["ds"]:
+            name = d["name"]
+            got = canon_ds(dump, name)
+            if name == "zz":
+                if len(got["changes"]) != 1 or len(got["listing"]) != 1:
+                    out.append("%s: the fresh dataset zz holds %d change entries / %d entities instead of the 1 written" % (what, len(got["changes"]), len(got["listing"])))
+                continue
+            origin = name if name in c["datasets"] else (mg["ds"] if mg["op"] == "rename" and name == mg.get("to") else None)
+            want = (canon_ds(m["ref"], origin) if origin else None) or EMPTY_DS
+            if got != want:
+                diff = [k for k in want if got[k] != want[k]]
+                out.append("%s: dataset %s still exists but does not hold exactly its acknowledged writes (differs in %s: %s vs %s)" % (
+                    what, name, diff, json.dumps(got[diff[0]])[:200], json.dumps(want[diff[0]])[:200]))
+    return out
+
+
+def write_case_problems(c, o):
+    out = []
+    for name in ("after", "final"):
+        out += dump_problems(o[name], name)
+    return out
+
+
 def predict_text(c, o):
+    if c.get("mgmt"):
+        return "dataset-management case (harness-level oracle): " + "; ".join(mgmt_problems(c, o) or ["no problem found"])
     t = term(c, o)
     body = "Definition c : C04Check.tcase := %s.\n" % t
     body += ("Eval vm_compute in (map (fun v => C04Check.agree v c) C04Check.variants, C04Check.spec_core c, C04Check.spec_ok c, "
@@ -414,6 +613,10 @@ def counter_lag(o):
 
 
 def attribute(c, o):
+    if c.get("mgmt"):
+        return None
+    if usable(o) and write_case_problems(c, o):
+        return None
     if usable(o) and counter_lag(o):
         kind, idx, phase, cdone, order = crash_position(c, o)
         if kind == "kill" or (kind == "hook" and phase == 2):
@@ -426,6 +629,8 @@ def size(c):
 
 
 def classify(c, o):
+    if c.get("mgmt"):
+        return "mgmt-" + c["mgmt"]["op"] if (c.get("crash") and o.get("exit") == 137) else None
     if not usable(o):
         return None
     kind, idx, phase, cdone, order = crash_position(c, o)
@@ -437,6 +642,9 @@ def classify(c, o):
 
 
 def tags(c, o):
+    if c.get("mgmt"):
+        return ["mgmt=" + c["mgmt"]["op"], "point=" + ((c.get("crash") or {}).get("point") or "none"), "outcome=" + o.get("outcome", "?"),
+                "child-exit=%s" % o.get("exit")]
     t = ["datasets=%d" % len(c["datasets"])]
     cr = c.get("crash") or {}
     t.append("point=" + (cr.get("point") or ("kill" if cr.get("kill_line") else "none")))
@@ -467,6 +675,11 @@ def main(tier, seed, replay=None):
         CASES_SEEN.clear()
         CASES_SEEN.extend(zip(cases, obs))
         for i, (c, o) in enumerate(zip(cases, obs)):
+            if c.get("mgmt"):
+                pr = mgmt_problems(c, o)
+                if pr:
+                    bad.append((i, c, o, "dataset management interrupted at %s: %s" % ((c.get("crash") or {}).get("point"), pr[0])))
+                continue
             if o.get("first_open"):
                 if F04B_SIGNATURE in o["first_open"] and o.get("exit") == -1:
                     first_open.append(i)
@@ -475,6 +688,10 @@ def main(tier, seed, replay=None):
                     continue
             if not usable(o):
                 bad.append((i, c, o, "driver outcome %s: %s" % (o.get("outcome"), (o.get("detail") or (o.get("after") or {}).get("err") or "")[:300])))
+                continue
+            pr = write_case_problems(c, o)
+            if pr:
+                bad.append((i, c, o, pr[0]))
                 continue
             kind, idx, phase, cdone, order = crash_position(c, o)
             v = refs_verdict(c, o)
@@ -491,7 +708,15 @@ def main(tier, seed, replay=None):
         if not k.startswith("__"):
             setattr(S, k, getattr(P, k))
     S.run = run_and_check
-    rc = engine.run_check(S, tier, seed, replay)
+    import io
+    import contextlib
+    buf = io.StringIO()
+    with contextlib.redirect_stdout(buf):
+        rc = engine.run_check(S, tier, seed, replay)
+    for line in buf.getvalue().splitlines():
+        if line.startswith("OK ") and bad:
+            continue      # the harness-level oracle below found a failing input: no OK line
+        print(line)
     if first_open:
         known = {f["id"]: f for f in vlib.load_known()}
         if known.get("F04b", {}).get("status") == "open":
